@@ -435,7 +435,7 @@ fn panic_sig(p: &PanicRec, input: &[u8]) -> String {
         // keyed by the code that asked for the allocation: a new reader that pre-sizes from the
         // declared length is a new signature
         format!("alloc/capacity-overflow-panic-on-huge-declared-length@{}", p.via)
-    } else if p.msg.contains("attempt to negate with overflow") && p.loc.contains("cbor_event") {
+    } else if p.msg.contains("attempt to negate with overflow") && p.loc.contains("cbor_event") && p.loc.contains("se.rs") {
         // one defect below many serializers (checked build only)
         "cbor_event/write_negative_integer/negate-overflow-for-minus-2^63".to_string()
     } else {
